@@ -267,16 +267,19 @@ class MQTTProtocol(MQTTBaseProtocol):
         try:
             msg = self.factory.windowPubRx[self.addr][response.msgId]
         except KeyError as e:
+            msg = None
             log.debug("==> {packet:7}(id={response.msgId:04x} dup={response.dup}) already handled" , packet="PUBREL", response=response)
         else:
             log.debug("==> {packet:7}(id={response.msgId:04x} dup={response.dup})" , packet="PUBREL", response=response)
             del self.factory.windowPubRx[self.addr][response.msgId]
-            self._deliver(msg)
         # a repeated PUBREL means our PUBCOMP got lost: answer it again [MQTT-4.3.3-2]
         reply = PUBCOMP()
         reply.msgId = response.msgId
         log.debug("<== {packet:7} (id={response.msgId:04x})" , packet="PUBCOMP", response=response)
         self.transport.write(reply.encode())
+        # delivered last, as for QoS 1: the handler may well call disconnect()
+        if msg is not None:
+            self._deliver(msg)
 
 
     # --------------------------------------------------------------------------
